@@ -23,7 +23,7 @@ import (
 
 func TestMain(m *testing.M) { vkit.Main(m) }
 
-// Op is one step. Client ops: sub / unsub / disc (client C, channel Ch); connect re-attaches client C at broker B.
+// Op is one step. Client ops: sub / unsub / disc (client C, channel Ch); flap = unsubscribe + subscribe again of a held channel; connect re-attaches client C at broker B.
 // Transport ops: pick / deliver on link A->B2; periodic = full state of A queued for B2; fullsync = quiesce, then a
 // full-state exchange A->B2 with nothing else in flight, quiesce; offline = B2 is garbage-collected at A (link down,
 // OnGC callback); reconnect = link A<->B2 comes back with a full-state exchange both ways. check = quiesce and
@@ -46,7 +46,10 @@ type Case struct {
 	Ops   []Op   `json:"ops"`
 }
 
-var chans = []string{"a/", "a/b/", "c/", "a/", "a/b/", "a/", "x/y/", "y/x/"} // x/y/ and y/x/: ssids with equal XOR hash (per-peer counters)
+// a channel name longer than a kilobyte: the replicated subscription entry (value = user + channel) crosses the size classes of stores and caches
+var longCh = "long" + strings.Repeat("x", 1100) + "/"
+
+var chans = []string{"a/", "a/b/", "c/", "a/", "a/b/", "a/", "x/y/", "y/x/", longCh, longCh} // x/y/ and y/x/: ssids with equal XOR hash (per-peer counters)
 
 func genCase(class string) func(t *rapid.T) Case {
 	return func(t *rapid.T) Case {
@@ -69,8 +72,13 @@ func genCase(class string) func(t *rapid.T) Case {
 			}
 			return a, b
 		}
+		lastC, lastCh := 0, "a/"
 		for i, n := 0, rapid.IntRange(2, 40).Draw(t, "nops"); i < n; i++ {
 			op := Op{C: rapid.IntRange(0, nc-1).Draw(t, "c"), Ch: rapid.SampledFrom(chans).Draw(t, "ch")}
+			if i > 0 && rapid.IntRange(0, 2).Draw(t, "burst") == 0 { // bursts: the same client on the same channel again (subscribe / unsubscribe / subscribe ...)
+				op.C, op.Ch = lastC, lastCh
+			}
+			lastC, lastCh = op.C, op.Ch
 			k := rapid.IntRange(0, 29).Draw(t, "kind")
 			switch {
 			case k < 8:
@@ -79,8 +87,10 @@ func genCase(class string) func(t *rapid.T) Case {
 				op.K = "unsub"
 			case k < 14:
 				op.K = "disc"
-			case k < 16:
+			case k < 15:
 				op.K, op.B = "connect", rapid.IntRange(0, c.N-1).Draw(t, "cb")
+			case k < 17:
+				op.K = "flap" // the client drops and immediately re-takes a subscription it holds (same connection, same channel)
 			case k < 19:
 				op.K = "check"
 			case k < 21:
@@ -271,9 +281,9 @@ func run(c Case) (res vkit.Result) {
 	checkRoutes := func(step int, why string) string {
 		net.Quiesce()
 		for j := range brokers {
-			for _, ch := range []string{"a/", "a/b/", "c/", "a/b/x/", "x/y/", "y/x/"} {
+			for _, ch := range []string{"a/", "a/b/", "c/", "a/b/x/", "x/y/", "y/x/", longCh} {
 				if g, w := gotRemote(j, ch), wantRemote(j, ch); fmt.Sprint(g) != fmt.Sprint(w) {
-					return fmt.Sprintf("step %d (%s): after gossip quiesced broker %d forwards %q to peers %v; the brokers with a live local subscriber are %v", step, why, j, ch, g, w)
+					return fmt.Sprintf("step %d (%s): after gossip quiesced broker %d forwards %.40q to peers %v; the brokers with a live local subscriber are %v", step, why, j, ch, g, w)
 				}
 			}
 		}
@@ -302,6 +312,26 @@ func run(c Case) (res vkit.Result) {
 				delete(m.subs, op.Ch)
 			}
 			settle()
+		case "flap":
+			m := clients[op.C]
+			if m.cl == nil || len(m.subs) == 0 {
+				continue
+			}
+			ch := op.Ch
+			if m.subs[longCh] {
+				ch = longCh
+			} else if !m.subs[ch] {
+				ch = keysOfS(m.subs)[0]
+			}
+			if _, err := m.cl.Unsubscribe(uint16(step+1), key+"/"+ch); err != nil {
+				return failf("step %d: unsubscribe: %v", step, err)
+			}
+			settle()
+			if codes, _, err := m.cl.Subscribe(uint16(step+1), key+"/"+ch); err != nil || codes[0] == 0x80 {
+				return failf("step %d: subscribe: %v %v", step, codes, err)
+			}
+			settle()
+			labels["subscription-flapped"] = true
 		case "disc":
 			m := clients[op.C]
 			if m.cl == nil {
